@@ -48,4 +48,35 @@ for d in sorted(glob.glob(os.path.join(V, "seeded", "*"))):
     det = "; ".join((x[:90] for r in oc.values() for x in r.get("detail", [])[:1]))
     out.append("| %s | %s | %s | %s | %s |" % (os.path.basename(d), str(m.get("breaks") or m.get("summary") or "")[:110].replace("|", "/"),
                                              str(m.get("needs") or m.get("trigger") or "")[:110].replace("|", "/"), ("; ".join(res) or "n/a") + ((" — " + m["note"][:160]) if m.get("note") else ""), det.replace("|", "/")))
+out.append("")
+out.append("Behaviour-preserving rewrites (`benign/`, DESIGN 8.9) against the current checks:")
+out.append("")
+out.append("| rewrite | what it restructures | outcome of the check now | first contact |")
+out.append("|---|---|---|---|")
+fc = json.load(open(os.path.join(V, "benign", "first_contact.json")))
+first_alarm = dict(fc.get("false_alarms_on_first_contact", {}))
+first_alarm.update(fc.get("round2", {}).get("false_alarms_on_first_contact", {}))
+n_silent = n_alarm = 0
+for d in sorted(glob.glob(os.path.join(V, "benign", "*"))):
+    mp = os.path.join(d, "meta.json")
+    if not os.path.exists(mp):
+        continue
+    m = json.load(open(mp))
+    name = os.path.basename(d)
+    res = []
+    for c, r in m.get("our_checks", {}).items():
+        v = r.get("violation_line") or ""
+        if r.get("exit") == 0:
+            res.append("%s: silent" % c)
+        elif "no-failing-input-found" in v:
+            res.append("%s: alarm (no-failing-input-found): %s" % (c, "; ".join(x[:80] for x in r.get("detail", [])[:1])))
+        else:
+            res.append("%s: ALARM WITH REPLAY" % c)
+    ok = all(r.get("exit") == 0 for r in m.get("our_checks", {}).values())
+    n_silent += ok
+    n_alarm += (not ok)
+    out.append("| %s | %s | %s | %s |" % (name, str(m.get("summary", ""))[:140].replace("|", "/").replace("\n", " "), "; ".join(res).replace("|", "/"),
+                                      ("alarm: " + first_alarm[name][:120].replace("|", "/")) if name in first_alarm else "silent"))
+out.append("")
+out.append("%d rewrites: %d silent now, %d still raise an alarm; on first contact %d raised one." % (n_silent + n_alarm, n_silent, n_alarm, len(first_alarm)))
 print("\n".join(out))
